@@ -84,7 +84,44 @@ class Built:
             kw["classes"] = [make_user_class(r["name"], sorted({e["attr"] for e in G.walk_all(r["body"])
                                                                 if e["k"] == "asg"}) if ca else ())
                              for r in g["rules"] if any(e["k"] == "asg" for e in G.walk_all(r["body"]))]
-        self.mm = metamodel_from_str(self.text, **kw)
+        if cfg.get("split3"):
+            # the same grammar written as a chain of three grammar files (main imports mid imports leaf): what is
+            # parsed and built does not depend on how the rules are distributed over files
+            self.mm = self._from_files(g, kw)
+        else:
+            self.mm = metamodel_from_str(self.text, **kw)
+
+    @staticmethod
+    def split3(g):
+        """(main, mid, leaf) rule lists, or None when the grammar cannot be written as such a chain: a rule may
+        refer to rules of its own file and of the directly imported file only."""
+        rules = g["rules"]
+        if len(rules) < 3 or any(r["name"] in ("Comment", "LineC") for r in rules):
+            return None
+        parts = ([rules[0]], [rules[1]], rules[2:])
+        where = {r["name"]: i for i, part in enumerate(parts) for r in part}
+        for i, part in enumerate(parts):
+            for r in part:
+                for e in G.walk_all(r["body"]):
+                    if e["k"] == "ref" and e["name"] in where and where[e["name"]] not in (i, i + 1):
+                        return None
+        return parts
+
+    def _from_files(self, g, kw):
+        import os, shutil, tempfile
+        from textx import metamodel_from_file
+        parts = self.split3(g)
+        assert parts is not None
+        d = tempfile.mkdtemp(prefix="vt-split3-")
+        try:
+            names = ["main", "mid", "leaf"]
+            for i, part in enumerate(parts):
+                text = ("import %s\n" % names[i + 1] if i < 2 else "") + G.render_grammar(dict(rules=part))
+                with open(os.path.join(d, names[i] + ".tx"), "w") as f:
+                    f.write(text)
+            return metamodel_from_file(os.path.join(d, "main.tx"), **kw)
+        finally:
+            shutil.rmtree(d, ignore_errors=True)
 
     def run(self, inp):
         from textx.exceptions import TextXSemanticError, TextXSyntaxError
